@@ -35,8 +35,43 @@ def ws(rng, p=0.25):
 # ---------------------------------------------------------------------------------------------
 # numbers
 
+MAX_INT = int(float.fromhex("0x1.fffffffffffffp+1023"))     # Number.MAX_VALUE as an integer (309 digits)
+HALFWAY = (1 << 1024) - (1 << 970)                           # first value that rounds to Infinity
+
+
+def gen_near_max(rng):
+    """a number token within a few units (in some digit position) of Number.MAX_VALUE or of the overflow threshold, in one of several
+    spellings (d.ddde308, dddde292, the plain 309-digit integer, leading zeros after the point, trailing zeros before the exponent)"""
+    if rng.random() < 0.25:
+        base = HALFWAY + rng.choice([1, -1]) * rng.randrange(0, 10 ** rng.choice([1, 100, 290]))
+    else:
+        base = MAX_INT + rng.choice([0, 1, -1]) * rng.randrange(0, 10 ** rng.choice([280, 290, 292, 293, 295, 300, 308]))
+    ds = str(base)
+    d = ds[:rng.choice([15, 16, 17, 17, 18, 19, 20, 21, 22, 25, 40, len(ds)])]
+    e = len(ds) - 1
+    form = rng.random()
+    if form < 0.4:
+        t = d[0] + ("." + d[1:] if len(d) > 1 else "") + rng.choice(["e", "E", "e+"]) + str(e)
+    elif form < 0.6:
+        t = d + "e" + str(e - len(d) + 1)
+    elif form < 0.75:
+        t = ds + rng.choice(["", ".0", ".5", ".99999", "e0", "E-0"])
+    elif form < 0.9:
+        k = rng.randrange(1, 30)
+        t = "0." + "0" * k + d + "e" + str(e + k + 1)
+    else:
+        k = rng.randrange(1, 25)
+        t = d + "0" * k + "e" + str(e - len(d) + 1 - k)
+    if rng.random() < 0.2:
+        t = "-" + t
+    return u(t)
+
+
 def gen_number(rng, tags):
     r = rng.random()
+    if r < 0.03:
+        tags.add("num-near-max")
+        return gen_near_max(rng)
     if r < 0.08:
         tags.add("num-overflow")
         return u(rng.choice(["1e400", "-1e400", "1E309", "9e999", "123456789e301", "1.7976931348623159e308", "2e308"]))
@@ -243,6 +278,11 @@ ADVERSARIAL = [
     "1.7976931348623157e308", "1.7976931348623158e308", "1.7976931348623159e308", "4.9406564584124654e-324", "2.4703282292062328e-324",
     "2.4703282292062327e-324", "9007199254740993", "18446744073709551616", "-9223372036854775809", "0.1e-999999999999", "1e99999999999999999999",
     "0." + "0" * 400 + "1", "1" + "0" * 400, "-1" + "0" * 309, "0.000000000000000000000000000000000000001e400",
+    "1.7976931348623157e+308", "17976931348623157e292", "17976931348623158e292", "0.17976931348623157e309", "-1.7976931348623158e308",
+    "179769313486231570814527423731704356798070567525844996598917476803157260780028538760589558632766878171540458953514382464234321326889464182768467546703537516986049910576551282076245490090389328944075868508455133942304583236903222948165808559332123348274797826204144723168738177180919299881250404026184124858368",
+    "179769313486231580793728971405303415079934132710037826936173778980444968292764750946649017977587207096330286416692887910946555547851940402630657488671505820681908902000708383676273854845817711531764475730270069855571366959622842914819860834936475292719074168444365510704342711559699508093042880177904174497791",
+    "179769313486231580793728971405303415079934132710037826936173778980444968292764750946649017977587207096330286416692887910946555547851940402630657488671505820681908902000708383676273854845817711531764475730270069855571366959622842914819860834936475292719074168444365510704342711559699508093042880177904174497792",
+    "18446744073709551615e289", "18446744073709551616e289", "1e2147483647", "1e2147483648", "0e2147483648", "1e-2147483649", "1" + "0" * 400 + "e-100", "1" + "0" * 400 + "e-92",
     # literals
     "true", "false", "null", "True", "NULL", "tru", "nul", "nulll", "truefalse", "true false", "undefined", "void 0",
     # strings
